@@ -26,6 +26,7 @@ var (
 	errNoLocalpart        = errors.New("the localpart must be larger than 0 bytes")
 	errNoResourcepart     = errors.New("the resourcepart must be larger than 0 bytes")
 	errTrailingDot        = errors.New("the domainpart must not end in an empty label")
+	errUnstableDomain     = errors.New("the domainpart does not have a stable normalized form")
 )
 
 // JID represents an XMPP address (Jabber ID) comprising a localpart,
@@ -437,10 +438,27 @@ func normalizeDomainpart(domainpart string) (string, error) {
 	//   [RFC5892].
 	//
 	// Per EID 4534 this is actually talking about RFC 5895.
+	unnormalized := domainpart
 	var err error
 	domainpart, err = idna.Display.ToUnicode(domainpart)
 	if err != nil {
 		return domainpart, err
+	}
+
+	// The canonical form has to be a fixed point of the normalization,
+	// otherwise the string form of the JID parses to a different JID or not at
+	// all.
+	// This is not guaranteed by ToUnicode: some rules (eg. the Bidi rule) are
+	// checked against the code points before they are mapped, so "\u2137z"
+	// is mapped to "\u05d2z" which is rejected when it is processed again.
+	if domainpart != unnormalized {
+		again, err := idna.Display.ToUnicode(domainpart)
+		if err != nil {
+			return domainpart, err
+		}
+		if again != domainpart {
+			return domainpart, errUnstableDomain
+		}
 	}
 
 	// ToUnicode maps the other label separators recognized by IDNA (such as
